@@ -91,7 +91,7 @@ void ABTI_ythread_callback_resume_yield_to(void *arg)
      * access it after that ULT becomes resumable. */
     ABTI_ythread *p_prev = p_arg->p_prev;
     ABTI_ythread *p_next = p_arg->p_next;
-    ABTI_VERIF_EV(ABTI_VEV_CB, &p_prev->thread, ABTI_VCB_RESUME_YIELD_TO, 0);
+    ABTI_VERIF_EV(ABTI_VEV_CB, &p_prev->thread, ABTI_VCB_RESUME_YIELD_TO, &p_next->thread);
     if (ABTI_thread_handle_request(&p_prev->thread, ABT_TRUE) &
         ABTI_THREAD_HANDLE_REQUEST_CANCELLED) {
         /* p_prev is terminated. */
@@ -130,7 +130,7 @@ void ABTI_ythread_callback_resume_suspend_to(void *arg)
      * access it after that ULT becomes resumable. */
     ABTI_ythread *p_prev = p_arg->p_prev;
     ABTI_ythread *p_next = p_arg->p_next;
-    ABTI_VERIF_EV(ABTI_VEV_CB, &p_prev->thread, ABTI_VCB_RESUME_SUSPEND_TO, 0);
+    ABTI_VERIF_EV(ABTI_VEV_CB, &p_prev->thread, ABTI_VCB_RESUME_SUSPEND_TO, &p_next->thread);
     ABTI_pool *p_prev_pool = p_prev->thread.p_pool;
     ABTI_pool *p_next_pool = p_next->thread.p_pool;
     if (p_prev_pool != p_next_pool) {
@@ -167,7 +167,7 @@ void ABTI_ythread_callback_resume_exit_to(void *arg)
      * access it after that ULT becomes resumable. */
     ABTI_ythread *p_prev = p_arg->p_prev;
     ABTI_ythread *p_next = p_arg->p_next;
-    ABTI_VERIF_EV(ABTI_VEV_CB, &p_prev->thread, ABTI_VCB_RESUME_EXIT_TO, 0);
+    ABTI_VERIF_EV(ABTI_VEV_CB, &p_prev->thread, ABTI_VCB_RESUME_EXIT_TO, &p_next->thread);
     /* Terminate this thread. */
     ABTI_thread_terminate(ABTI_global_get_global(),
                           p_prev->thread.p_last_xstream, &p_prev->thread);
